@@ -413,6 +413,29 @@ func (e *Env) call(x *ECall) Val {
 			e.fail("seen%d: no such map-range loop", n)
 		}
 		return Val{T: t, Ty: tBool}
+	case "curkey1", "curkey2", "curkey3":
+		n, _ := strconv.Atoi(x.Fn[6:])
+		if n < 1 || n > len(e.g.loopList) || len(e.g.loopList[n-1].ranges) == 0 || e.g.loopList[n-1].ranges[0].curKey == "" {
+			e.fail("%s: loop %d has no current key here", x.Fn, n)
+		}
+		ri := e.g.loopList[n-1].ranges[0]
+		return Val{T: ri.curKey, Ty: ri.curKeyTy}
+	case "unchangedOld":
+		// unchangedOld("HeapVar"): every cell of an object that existed at function entry is as it was then
+		k, ok := x.Args[0].(*EStr)
+		if !ok {
+			e.fail("unchangedOld(\"heap variable\")")
+		}
+		srt, known := e.g.vc.heapVarSorts[k.V]
+		if !known {
+			e.fail("unchangedOld: heap variable %s is not used by this function (known: see `govc vc`)", k.V)
+		}
+		a, b := e.g.entry.Get(k.V, srt), e.now.Get(k.V, srt)
+		if a == b {
+			return Val{T: "true", Ty: tBool}
+		}
+		alloc0 := e.m().allocNow(e.g.entry)
+		return Val{T: fmt.Sprintf("(forall ((fr Int)) (! (=> (< (root fr) %s) (= (select %s fr) (select %s fr))) :pattern ((select %s fr))))", alloc0, b, a, b), Ty: tBool}
 	case "same":
 		// same(a, b): struct values equal field by field (also usable on addresses)
 		a, b := e.eval(x.Args[0]), e.eval(x.Args[1])
